@@ -4,8 +4,8 @@
 //   small     versions x V in 1..Vmax x 9 lattice arrangements x every subset of a fixed pool of <= 6
 //             triangles x UVs present/absent x normals present/absent: CreateShapeFromData, read back
 //             immediately and after Save(raw)+Load.
-//   setter    versions x V x arrangements x UV/normal presence x base {fresh, populated} x every
-//             setter/getter pair (positions same count / grown / shrunk, UVs, normals, tangents,
+//   setter    versions x V x arrangements x UV/normal presence x base {fresh, populated, populated+eye} x
+//             every setter/getter pair (positions same count / grown / shrunk, UVs, normals, tangents,
 //             bitangents, colours, eye data, triangles (4 lists), bounds).
 //   boundary  versions x V in {1, 65535, 65536} x T in {0, 65535, 65536} x attribute presence.
 //
@@ -32,6 +32,11 @@ using vf::Stats;
 
 static vf::Args A;
 static bool g_no_reload = false; // set for a case whose Save+Load step killed the worker before
+// Saving a BSTriShape that carries eye data is probed once per version in an isolated child before the
+// enumeration starts (see probe_eye_save).  Where the probe dies, the finding is reported once and the
+// Save+Load step of every further case whose shape carries eye data is left out (their in-memory checks
+// still run); where it survives, those cases are saved and reloaded like all others.
+static bool g_eye_save_dies[6] = {false, false, false, false, false, false};
 
 // ---------------------------------------------------------------- versions
 struct Ver {
@@ -92,7 +97,7 @@ struct Case {
 	int arr = 0;
 	unsigned trimask = 0;
 	bool uv = false, nrm = false;
-	int base = 0; // 0 as created, 1 every attribute but eye data populated, 2 eye data populated too (BSTriShape family; in-memory checks only)
+	int base = 0; // 0 as created, 1 every attribute but eye data populated, 2 eye data populated too (BSTriShape family)
 	std::string setter;
 	int T = 0; // boundary
 };
@@ -215,6 +220,7 @@ struct Ctx {
 	const Case& c;
 	std::string prefix; // version name
 	bool failed = false;
+	bool record = true; // record error magnitudes (off for comparisons that are observations only)
 };
 
 static void viol(Ctx& x, const std::string& what, const std::string& msg) {
@@ -230,8 +236,10 @@ static bool cmp_comp(Ctx& x, float want, float got, Fmt f) {
 	double tol = f == F_HALF ? half_spacing(want) : f == F_SBYTE ? SBYTE_STEP : CBYTE_STEP;
 	const char* k = f == F_HALF ? "max_err_half_ppm_of_1ulp" : f == F_SBYTE ? "max_err_sbyte_ppm_of_step" : "max_err_colour_ppm_of_step";
 	if (std::isnan(got)) return false;
-	x.st.max(k, (long long) std::llround(err / tol * 1e6));
-	if (f == F_HALF && err > tol * 0.5 * (1 + 1e-9)) x.st.add("half_values_not_rounded_to_nearest");
+	if (x.record) {
+		x.st.max(k, (long long) std::llround(err / tol * 1e6));
+		if (f == F_HALF && err > tol * 0.5 * (1 + 1e-9)) x.st.add("half_values_not_rounded_to_nearest");
+	}
 	return err <= tol * (1.0 + 1e-6) + 1e-7 * (f == F_HALF ? 0 : 1);
 }
 
@@ -575,20 +583,22 @@ static void run_setter_case(const Case& c, Stats& st) {
 	if (!count_change) check_others(x, before, after, S.rfind("positions", 0) == 0 ? "positions" : S);
 	else if (after.nv != w3.size()) viol(x, K + ":vertex-count", vf::strf("SetVertsForShape with %zu positions leaves a vertex count of %u", w3.size(), after.nv));
 	// 3. every per-vertex array has the vertex count
-	check_sizes(x, after, "after-" + S);
+	check_sizes(x, after, count_change ? std::string("after-positions-count-change") : "after-" + S);
 	// 4. after Save+Load the arrays still have the vertex count.  Whether the value set survives the file is
 	//    not part of the statement for setters (e.g. tangents are only stored when normals exist); it is
 	//    recorded as an observation, not as a violation.
 	NifFile re;
-	// base 2 never saves: every Save of a shape with VF_EYEDATA runs into the shift in VertexDesc::SetAttributeOffset
-	// (reported once per eye-data setter case); repeating that crash for every other setter adds nothing
-	const bool do_reload = !g_no_reload && c.base != 2;
+	const bool eye_on_shape = !after.eye.empty();
+	const bool do_reload = !g_no_reload && !(eye_on_shape && g_eye_save_dies[c.ver]);
+	if (!do_reload && !g_no_reload) st.add("save_load_left_out_eye_data_save_dies");
 	NiShape* rs = do_reload ? reload(nif, re, x, "after-" + S) : nullptr;
 	if (do_reload) st.add("save_loads");
 	if (rs) {
 		Snap r = snapshot(re, rs);
 		check_sizes(x, r, "reload-after-" + S);
+		x.record = false;
 		bool kept = check_value(r, true, false);
+		x.record = true;
 		if (!kept) {
 			st.add("setter_value_not_kept_by_file");
 			st.note(vf::strf("observed: value set with %s on %s (normals %s) is not kept by Save+Load", S.c_str(), storage_class(v), after.pN ? "present" : "absent"));
@@ -674,7 +684,14 @@ int main(int argc, char** argv) {
 	if (!A.replay.empty()) {
 		J r = J::parse(vf::read_file(A.replay));
 		Case c = case_from_json(r["case"]);
-		run_case(c, top);
+		// in a child, so that a crash is reported through the same path as during the enumeration
+		vf::CrashInfo ci = vf::run_isolated(A.rundir, A.repo, 300, [&]() {
+			Stats st;
+			run_case(c, st);
+			st.flush(stdout);
+			return 0;
+		});
+		if (!ci.cls.empty()) top.violation("crash:" + ci.key(), "child died (" + ci.cls + " in " + ci.frame + ") :: " + vf::tab_safe(ci.text.substr(0, 500)), case_json(c));
 		vf::finish(top);
 		return 0;
 	}
@@ -694,6 +711,25 @@ int main(int argc, char** argv) {
 		for (int V = Vmax; V >= 1; V--) for (int vi : vers) units.push_back({"small", vi, V, 0, 0});
 	if (only.empty() || only == "setter")
 		for (int V = Vmax; V >= 1; V--) for (int vi : vers) for (int s = 0; s < NSETTERS; s++) units.push_back({"setter", vi, V, 0, s});
+
+	// probe: does saving a shape with eye data survive?
+	for (int vi : vers) {
+		if (!g_vers[vi].bs) continue;
+		Case pc0;
+		pc0.fam = "setter"; pc0.ver = vi; pc0.V = 3; pc0.arr = 0; pc0.trimask = 3; pc0.base = 0; pc0.setter = "eyedata";
+		vf::CrashInfo ci = vf::run_isolated(A.rundir, A.repo, 120, [&]() {
+			Stats st;
+			run_case(pc0, st);
+			return 0;
+		});
+		top.add("probes");
+		if (!ci.cls.empty()) {
+			g_eye_save_dies[vi] = true;
+			top.violation("crash:" + ci.key(), std::string(g_vers[vi].name) + ": SetEyeDataForShape followed by Save kills the process (" + ci.cls + " in " + ci.frame + ") :: " + vf::tab_safe(ci.text.substr(0, 500)),
+						  case_json(pc0));
+			top.note(std::string("Save of a ") + g_vers[vi].name + " shape carrying eye data dies under the sanitizer (" + ci.key() + "); cases whose shape carries eye data are checked in memory only, their Save+Load step is left out (counter save_load_left_out_eye_data_save_dies)");
+		}
+	}
 
 	vf::PoolCfg pc;
 	pc.jobs = A.jobs;
@@ -745,7 +781,7 @@ int main(int argc, char** argv) {
 				 vf::strf("complete product, no sampling. small: %zu versions x V=1..%d x 9 cyclic arrangements of the lattice {0,1,-1,0.1,1/3,1000.5,65504,1e-5,-0.0} "
 						  "(vertex i = (L[i+a], L[2i+a+1], L[4i+a+2]), pairwise distinct) x every subset of the fixed triangle pool of that V (V=3: 2, V>=4: 6 triangles; "
 						  "V<3: empty) x UVs present/absent x normals present/absent (unit vectors built from lattice values, and the zero vector). "
-						  "setter: same V/arrangements/presence, full pool as triangle list x base {as created; UVs, normals, tangents, bitangents, colours populated; the same plus eye data (BSTriShape family, checked in memory only)} x %d setter/getter pairs "
+						  "setter: same V/arrangements/presence, full pool as triangle list x base {as created; UVs, normals, tangents, bitangents, colours populated; the same plus eye data (BSTriShape family)} x %d setter/getter pairs "
 						  "(positions same count/+1/-1, uvs, normals, tangents, bitangents, colours, eye data, 4 triangle lists, bounds). "
 						  "boundary: V in {1,65535,65536} x T in {0,65535,65536} x %s. "
 						  "distinct_nontrivial = distinct (version, family, setter, base, mesh) inputs by value (hash of all vertex/triangle/UV/normal bytes); every case is non-trivial "
